@@ -50,7 +50,7 @@ func init() {
 }
 
 func genReuseCase(t *rapid.T, prop string) *Case {
-	o := WorldOpts{MinBuilds: 1, MaxBuilds: 3, MaxMerges: 2, BigPct: 7, HugePct: 60, MaxTinyDocs: 10, FewTerms: rapid.IntRange(0, 1).Draw(t, "fewterms") == 0, MoreDV: true}
+	o := WorldOpts{MinBuilds: 1, MaxBuilds: 3, MaxMerges: 2, BigPct: 7, HugePct: 60, MaxTinyDocs: 10, FewTerms: rapid.IntRange(0, 1).Draw(t, "fewterms") == 0, MoreDV: true, AllowNoID: true, NoIDPct: 25}
 	if rapid.IntRange(0, 2).Draw(t, "swarm-nolocs") == 0 {
 		o.NoLocs = true
 	}
@@ -101,6 +101,13 @@ func genReuseCase(t *rapid.T, prop string) *Case {
 			op.PreIt = rapid.IntRange(0, 8).Draw(t, "preit")
 			op.Flags = rapid.IntRange(0, 7).Draw(t, "flags")
 		default:
+			if op.Kind == 3 {
+				// stored visits: sometimes the visitor stops early (the pooled context
+				// goes back with unread entries), sometimes the visit aims at a
+				// document without any stored value
+				op.Take = rapid.SampledFrom([]int{0, 0, 1, 1, 2}).Draw(t, "stop-after")
+				op.Absent = rapid.IntRange(0, 2).Draw(t, "prefer-empty") == 0
+			}
 			op.Slot = rapid.IntRange(0, 1).Draw(t, "dvslot")
 			if rapid.IntRange(0, 1).Draw(t, "edge") == 0 {
 				op.Doc = rapid.SampledFrom([]int{0, 5, 127, 128, 1000, 1023, 1024, 1025, 1500, 2047, 2048, 2049, 3071, 3072}).Draw(t, "edgedoc")
@@ -466,17 +473,31 @@ func runReuseCase(c *Case, env *Env) *Result {
 					return
 				}
 				n := op.Doc % cnt
+				if op.Absent {
+					for k := 0; k < cnt && k < 300; k++ {
+						if len(exp.Stored[(n+k)%cnt]) == 0 {
+							n = (n + k) % cnt
+							res.probe("visit-of-a-document-without-stored-values")
+							break
+						}
+					}
+				}
 				var got []model.FV
 				err := ws.Seg.VisitStoredFields(uint64(n), func(field string, value []byte) bool {
 					got = append(got, model.FV{F: field, V: append(model.Bytes{}, value...)})
-					return true
+					return op.Take == 0 || len(got) < op.Take
 				})
 				if err != nil {
 					f = apiFail("C13", "reuse", "VisitStoredFields", nil, err)
 					return
 				}
-				if d := model.DiffFV(got, exp.Stored[n]); d != "" {
-					f = mismatch("C13", "reuse", "stored", fmt.Sprintf("%s VisitStoredFields(%d): %s", where, n, d))
+				want := exp.Stored[n]
+				if op.Take > 0 && len(want) > op.Take {
+					want = want[:op.Take]
+					res.probe("stored-visit-stopped-early")
+				}
+				if d := model.DiffFV(got, want); d != "" {
+					f = mismatch("C13", "reuse", "stored", fmt.Sprintf("%s VisitStoredFields(%d), visitor stopping after %d values (0: never): %s", where, n, op.Take, d))
 				}
 				for k := range otherSince {
 					otherSince[k] = true
